@@ -487,8 +487,64 @@ fn panicking_iterator<C: CI>(ctx: &mut Ctx) {
     });
 }
 
+/// Slice arguments that are the tail of an allocation without spare words (whole-word lengths, aligned and
+/// unaligned starts), given to every edit operation that takes a slice, on receivers of several lengths and
+/// capacities.  A fast path that copies "the words holding the argument" must not look past its last word.
+fn exact_fit_arguments<C: CI>(ctx: &mut Ctx) {
+    let a = C::alpha();
+    let name = C::NAME;
+    let pw = per_word(a.bits);
+    ctx.group(&format!("{name}/exact-fit-arguments"), |ctx| {
+        let w = exact_fit_cases(a.bits)[0].0;
+        let cases = exact_fit_cases_for(ctx, a.bits);
+        let args = {
+            let _fit = exact_fit_mode();
+            Args::<C> {
+                items: cases.iter().map(|(n, pad)| {
+                    let c = rand_codes(&mut ctx.rng, a, *n);
+                    (Padded::<C>::new(&mut ctx.rng, *pad, &c, 0), c)
+                }).collect(),
+            }
+        };
+        let mut k = 0usize;
+        for i in 0..cases.len() {
+            for op in [Op::Append(i), Op::Prepend(i), Op::Insert(Pos::Zero, i), Op::Insert(Pos::Mid, i), Op::Insert(Pos::Len, i)] {
+                let starts = if ctx.lite { [0usize, w.min(33), pw - 1, 1] } else { [0usize, w, pw - 1, 2 * w + 1] };
+                for (si, start) in starts.into_iter().enumerate() {
+                    k += 1;
+                    if ctx.lite && ((k + ctx.shard + ctx.seed as usize) % 9 != 0 || ctx.over()) {
+                        continue;
+                    }
+                    let sc = rand_codes(&mut ctx.rng, a, start);
+                    // receivers with spare capacity (parsed) and without (exact copy)
+                    let mut seq = if (si + i) % 2 == 0 { mk::<C>(&sc) } else { exact_copy::<C>(&mk::<C>(&sc)) };
+                    let mut m = sc.clone();
+                    ctx.eval();
+                    let r = observe(|| {
+                        let d = apply::<C>(&mut seq, &mut m, &op, &args);
+                        (d, seq, m)
+                    });
+                    match r {
+                        Ok((d, seq, m)) => {
+                            let hist = || format!("{name} start {:?} then {} (argument: window [{},{}) ending its exact-capacity parent)", a.text(&sc), d.clone().unwrap_or_default(), cases[i].1, cases[i].1 + cases[i].0);
+                            verify::<C>(ctx, &seq, &m, &hist, true);
+                            // the argument and its parent are untouched
+                            let (p, c) = &args.items[i];
+                            check!(ctx, codes_of::<C>(p.slice()) == *c && p.parent.len() == cases[i].1 + cases[i].0, format!("edit|{name}|argument-changed"), "{}: the argument changed", hist());
+                        }
+                        Err(pm) => check!(ctx, false, format!("edit|{name}|panics"), "{name} start {:?} then {:?} with an exact-fit argument of {} symbols at {}: panicked: {pm}", a.text(&sc), op, cases[i].0, cases[i].1),
+                    }
+                    cell!(ctx, "{name}/exact-fit-argument/{}/{}", len_class(a.bits, cases[i].0), match op { Op::Append(_) => "append", Op::Prepend(_) => "prepend", _ => "insert" });
+                    ctx.nontrivial(fp(&[b"xfa", name.as_bytes(), &[i as u8, si as u8], format!("{op:?}").as_bytes()]));
+                }
+            }
+        }
+    });
+}
+
 fn run<C: CI>(ctx: &mut Ctx) {
     let name = C::NAME;
+    exact_fit_arguments::<C>(ctx);
     panicking_iterator::<C>(ctx);
     exhaustive::<C>(ctx, 1);
     exhaustive::<C>(ctx, 2);
@@ -510,6 +566,24 @@ fn run<C: CI>(ctx: &mut Ctx) {
 
 fn main() {
     run_main("C06", |ctx| {
+        ctx.first_use_race(3, |t| {
+            let mut d: Seq<Dna> = "ACGTTGCAACGTACGTACGTACGTACGTACGTTTGA".try_into().unwrap();
+            let mut i: Seq<Iupac> = "ACGTRYSWKMBDHVN-ACGT".try_into().unwrap();
+            let arg: Seq<Dna> = "TTTTGGGG".try_into().unwrap();
+            d.push(Dna::G);
+            d.append(&arg[t..]);
+            d.prepend(&arg[..t + 2]);
+            d.insert(3 + t, &arg);
+            d.remove(1..4 + t);
+            d.truncate(30 + t);
+            d.extend(arg.iter());
+            i.push(Iupac::N);
+            i.insert(t, &i.clone()[2..5]);
+            i.remove(..t);
+            let mut e = d.clone();
+            e.clear();
+            (d.to_string(), i.to_string(), e.len(), d.len())
+        });
         for_each_codec!(run, ctx);
         ctx.note("rule", json!("history + executable Vec model. (a) bounded-exhaustive: ~46 concrete ops (push x2, extend x2, clear, truncate x6 incl. n>len and n so large that n*BITS overflows, append/prepend/insert{0,mid,len} x 3 argument shapes {empty@1, 1 symbol@offset 1, 3 symbols straddling a word}, remove in 14 position/RangeBounds-form combinations incl. Bound tuples) from start lengths {0,1,W-1,W,W+1}: ALL histories of depth 1-2 for every codec, depth 3 for dna and miupac (thorough: all codecs); (b) random histories of 200 (thorough 2000) ops with lengths oscillating around 1-4 word boundaries (every fifth history around 8, 9, 16 or 33 words), start states with exact / spare / pre-reserved capacity, Extend fed through iterators of seven size-hint shapes, arguments = windows at random bit offsets of other sequences and of earlier clones, every RangeBounds form. After every step: len, symbols, bit length, raw image; display / == fresh parse / hash every step (exhaustive: last step) resp. every 8th (random). Snapshots (clone, slice.to_owned, String) re-verified at the end. extend / Extend::extend with an iterator that panics after k items: the sequence must hold its old content plus a prefix of the produced symbols. Distinct = (codec, start, history index) resp. (codec, state-before, op)."));
     });
